@@ -16,3 +16,22 @@ Theorem C08_vp8_bounded : forall hist,
   forall f, In (DFrame f) rs -> nlen f <= cap.
 Proof. exact bounded. Qed.
 Print Assumptions C08_vp8_bounded.
+
+(* ---- the translated kernels (tools/go2coq, spec.d/vp8.txt) ----
+   len(vpkt.Payload) == 0, newFrameBufferSize := d.frameBufferSize + len(chunk), newFrameBufferSize > vp8.MaxFrameSize
+   ARE the tests of Model.chunk_of / dec (cap = GVG.Consts.vp8_max_frame). *)
+From Coq Require Import ZArith.
+From GVG Require Import Kern.
+From GV_vp8 Require Import BridgeLib Bridge.
+Open Scope Z_scope.
+Theorem C08_vp8_kernels_are_the_code : forall (chunk : bytes) (fs : N), Z.of_N (fs + nlen chunk) < i64max ->
+  k_vp8_dec_empty (Z.of_N (nlen chunk)) = (nlen chunk =? 0)%N /\
+  k_vp8_dec_acc (Z.of_N fs) (Z.of_N (nlen chunk)) = Z.of_N (fs + nlen chunk) /\
+  k_vp8_dec_cap (k_vp8_dec_acc (Z.of_N fs) (Z.of_N (nlen chunk))) (Z.of_N cap) = (cap <? fs + nlen chunk)%N.
+Proof. exact caps_kernels_are_the_code. Qed.
+Print Assumptions C08_vp8_kernels_are_the_code.
+
+Example C08_vp8_example_kernels :
+  k_vp8_dec_cap (k_vp8_dec_acc (Z.of_N cap - 5) 5) (Z.of_N cap) = false /\
+  k_vp8_dec_cap (k_vp8_dec_acc (Z.of_N cap - 5) 6) (Z.of_N cap) = true /\ k_vp8_dec_empty 0 = true.
+Proof. vm_compute. repeat split. Qed.
